@@ -147,6 +147,7 @@ func (t *Term) IsConst() bool { return t.Op == OpConst }
 
 type TermTable struct {
 	tab    map[string]*Term
+	ktab   map[tkey]*Term
 	nextID int
 	vars   []*Term          // declared variables in order
 	ufs    map[string]string // UF name -> declaration
@@ -157,10 +158,43 @@ type TermTable struct {
 }
 
 func NewTermTable() *TermTable {
-	return &TermTable{tab: map[string]*Term{}, ufs: map[string]string{}}
+	return &TermTable{tab: map[string]*Term{}, ktab: map[tkey]*Term{}, ufs: map[string]string{}}
+}
+
+type tkey struct {
+	op         Op
+	k          SortKind
+	w          int
+	u, fb      uint64
+	b          bool
+	n          int
+	a0, a1, a2 int
+	name       string
 }
 
 func (tt *TermTable) intern(t Term) *Term {
+	if len(t.Args) <= 3 {
+		k := tkey{op: t.Op, k: t.Sort.K, w: t.Sort.W, u: t.U, fb: math.Float64bits(t.F), b: t.B, n: len(t.Args), name: t.Name}
+		switch len(t.Args) {
+		case 3:
+			k.a2 = t.Args[2].ID
+			fallthrough
+		case 2:
+			k.a1 = t.Args[1].ID
+			fallthrough
+		case 1:
+			k.a0 = t.Args[0].ID
+		}
+		if e, ok := tt.ktab[k]; ok {
+			return e
+		}
+		tt.nextID++
+		t.ID = tt.nextID
+		p := new(Term)
+		*p = t
+		tt.ktab[k] = p
+		return p
+	}
 	var sb strings.Builder
 	fmt.Fprintf(&sb, "%d|%d.%d|%d|%x|%v|%s", t.Op, t.Sort.K, t.Sort.W, t.U, math.Float64bits(t.F), t.B, t.Name)
 	for _, a := range t.Args {
@@ -210,12 +244,11 @@ func (tt *TermTable) FPConst(w int, f float64) *Term {
 }
 
 func (tt *TermTable) Var(name string, s Sort) *Term {
-	k := fmt.Sprintf("%d|%d.%d|%d|%x|%v|%s", OpVar, s.K, s.W, 0, 0, false, name)
-	if e, ok := tt.tab[k]; ok {
-		return e
-	}
+	n0 := tt.nextID
 	t := tt.intern(Term{Op: OpVar, Sort: s, Name: name})
-	tt.vars = append(tt.vars, t)
+	if tt.nextID != n0 {
+		tt.vars = append(tt.vars, t)
+	}
 	return t
 }
 
